@@ -294,10 +294,16 @@ def untypedTick : Tick := [.fail 77]
 cast it (it casts whenever it knows an input schema) -/
 def inputTyped (cur : Cursor) (req : Req) : Bool := req.exact || cur.declared
 
-/-- the literal entries of a metadata list -/
+/-- a later entry with this key carries a token value (the client put a token under a user key) -/
+def tokenLater (k : Bytes) (r : Meta) : Bool :=
+  r.any fun e => e.1 == k && (match e.2 with | .lit _ => false | _ => true)
+
+/-- The literal entries of a metadata list, as far as an echo can return them: the handler hands the
+metadata on as a map (the last entry of a key wins), so a literal whose key a LATER token-valued entry
+overrides is gone (that later entry is not a literal and is not listed either). -/
 def litEntries : Meta → List (Bytes × Bytes)
   | [] => []
-  | (k, .lit b) :: r => (k, b) :: litEntries r
+  | (k, .lit b) :: r => if tokenLater k r then litEntries r else (k, b) :: litEntries r
   | _ :: r => litEntries r
 
 /-- what the exchange handler saw as `InputMetadata`, as literals (it echoes these) -/
